@@ -85,3 +85,47 @@ def fp_pairs():
 def xkey_string(version, depth, fp, index, chain, key33):
     """independent Base58Check serialisation of an extended key"""
     return b58check_enc(version.to_bytes(4, "big") + bytes([depth]) + fp + index.to_bytes(4, "big") + chain + key33)
+
+
+def projection_siblings(rng, count):
+    """pairs (k1, k2) of distinct valid secp256k1 scalars that AGREE under a projection something might be keyed on:
+    CPython's own hash() of an int (the value modulo sys.hash_info.modulus = 2^61-1 on 64-bit builds), the low
+    32 / 64 / 128 bits, the high 192 bits, all bytes but the first.  Random scalars collide under these with
+    probability <= 2^-32, single-bit siblings never do; a memo, dict or lookup keyed on such a projection is wrong
+    exactly on these pairs (used back to back in one process)."""
+    mods = [sys.hash_info.modulus, 2 ** 32, 2 ** 64, 2 ** 128]
+    out = []
+    for j in range(count):
+        M = mods[j % len(mods)]
+        while True:
+            k1 = rng.randrange(1, N)
+            m = rng.randrange(1, max(2, (N - 1 - k1) // M)) if j % 2 else rng.choice([1, 2, 3, 0xC0FFEE])
+            k2 = k1 + m * M
+            if 1 <= k2 < N:
+                break
+            k2 = k1 - m * M
+            if 1 <= k2 < N:
+                break
+        out.append((k1, k2, "mod-%d-bit" % M.bit_length()))
+    for j in range(max(1, count // 4)):
+        k1 = rng.randrange(2 ** 200, N)
+        out.append((k1, ((k1 >> 64) << 64) | (rng.getrandbits(64) or 1), "same-high-192"))
+        b = bytearray(k1.to_bytes(32, "big"))
+        b[0] = (b[0] + 1 + rng.randrange(0xfe)) % 0xff
+        k2 = int.from_bytes(b, "big")
+        if 1 <= k2 < N and k2 != k1:
+            out.append((k1, k2, "same-low-31-bytes"))
+    # the smallest instances: 1 vs 2^61, 8 vs 2^64 (both members are "boundary" scalars)
+    out.append((1, 1 + sys.hash_info.modulus, "mod-hash-small"))
+    out.append((1 << (sys.hash_info.modulus.bit_length()), 1, "mod-hash-pow2"))
+    return out
+
+
+def soak_size(pid, tier):
+    """how many distinct children a long-lived-object soak derives under ONE node: a fixed floor, raised above every
+    small integer literal of the property's source files (a capacity / eviction constant in the code is met with
+    certainty, whatever its value up to the cap)"""
+    import check
+    lits = [x for x in check.source_literals(pid) if 2 <= x <= (20000 if tier == "quick" else 200000)]
+    floor = 2200 if tier == "quick" else 20000
+    return max([floor] + [x + 60 for x in lits])
